@@ -147,7 +147,7 @@ func allZero(s []int) bool {
 
 func runC14(r *rt.Runner) {
 	// well-formed streams x caller plans x delivery plans
-	n := r.N(300000, 5000000)
+	n := r.N(1000000, 8000000)
 	for k := 0; k < n; k++ {
 		r.Case("stream", func(c *rt.C) {
 			rng := c.Rand()
@@ -305,7 +305,7 @@ func runC14(r *rt.Runner) {
 	})
 
 	// binary segments truncated at every position x caller plans
-	nt := r.N(1500, 20000)
+	nt := r.N(4000, 30000)
 	for k := 0; k < nt; k++ {
 		r.Case("truncated-binary", func(c *rt.C) {
 			rng := c.Rand()
